@@ -209,6 +209,10 @@ def run(ctx, case):
         hd = MS.HaighDiagram.five_segment(pd.Series(p))
         first = hd.transform(df, R1)
         a1, m1 = list(first["range"])[0] / 2, list(first["mean"])[0]
+        # the same diagram object asked again (another target in between) answers as the first time
+        hd.transform(df, R2)
+        again = hd.transform(df, R1)
+        ctx.claim(ctx.close([list(again["range"])[0], list(again["mean"])[0]], [2 * a1, m1]), "idempotent", ("same diagram object asked again", list(again["range"])))
         ctx.assume(a1 > 0)
         a12 = T(a1, m1, R2)
         direct = T(a, m, R2)
